@@ -43,7 +43,7 @@ LIMIT_PATTERNS = ['Resource limit (rlimit) exceeded', 'rlimit', 'timed out', 'do
                   'not supported', 'unsupported', 'not yet supported', 'Verus does not']
 
 
-def run_verus(path, outdir, tag, extra=()):
+def run_verus(path, outdir, tag, extra=(), _retry=True):
     t0 = time.time()
     cmd = [VERUS, os.path.basename(path), '--output-json', '--time', '--multiple-errors', '400',
            '--error-format=json'] + list(extra)
@@ -57,18 +57,25 @@ def run_verus(path, outdir, tag, extra=()):
     except Exception:
         js = None
     diags = []
+    garbled = 0
     for line in p.stderr.split('\n'):
         line = line.strip()
         if not line.startswith('{'):
+            if '"$message_type"' in line:
+                garbled += 1
             continue
         try:
             d = json.loads(line)
         except Exception:
+            garbled += 1
             continue
         if d.get('$message_type') == 'diagnostic':
             diags.append(d)
+    if (garbled or js is None) and _retry:
+        # diagnostics of Verus' worker threads interleaved on stderr (or the run was cut short): once more, single-threaded
+        return run_verus(path, outdir, tag, list(extra) + ['--num-threads', '1'], _retry=False)
     return {'cmd': ' '.join(cmd), 'rc': p.returncode, 'json': js, 'diags': diags, 'wall_s': dt,
-            'stderr_tail': p.stderr[-2000:]}
+            'stderr_tail': p.stderr[-2000:], 'garbled': garbled}
 
 
 def classify(d):
@@ -127,6 +134,14 @@ def build_unit(unit, workdir):
     res['canary'] = r2
     analyse(res, gen, r1)
     analyse_canary(res, gen_c, r2)
+    if res['status'] == 'vacuous':
+        # a canary that seems to verify is far more often a lost diagnostic than a contradiction: confirm it
+        # with a second, single-threaded run before reporting
+        r2 = run_verus(can_rs, workdir, 'canary', list(UNITS[unit].get('verus_args', [])) + ['--num-threads', '1'], _retry=False)
+        res['canary'] = r2
+        res['status'] = 'ok'
+        res.pop('reason', None)
+        analyse_canary(res, gen_c, r2)
     return res
 
 
